@@ -137,6 +137,7 @@ def _simd_unit(isa, flag):
     addS('a_bits', [('uint32_t', 4)], [('int', 4)] * 3 + [('uint32_t', 4)], 'stv(o, glm::bitCount(%s(a))); stv(o2, glm::findLSB(%s(a))); stv(o3, glm::findMSB(%s(a))); stv(o4, glm::bitfieldReverse(%s(a)));' % (AU, AU, AU, AU))
     addS('a_fround', [('float', 4)], [('float', 4)] * 4, 'stv(o, glm::floor(%s(a))); stv(o2, glm::ceil(%s(a))); stv(o3, glm::round(%s(a))); stv(o4, glm::trunc(%s(a)));' % (AF, AF, AF, AF))
     addS('a_fmisc', [('float', 4)] * 2, [('float', 4)] * 4, 'stv(o, glm::abs(%s(a))); stv(o2, glm::fract(%s(a))); stv(o3, glm::mod(%s(a), %s(b))); stv(o4, glm::sign(%s(a)));' % (AF, AF, AF, AF, AF))
+    addS('a_fbool', [('float', 4), ('float', 4)], [('bool', 4)] * 4, 'stv(o, glm::isnan(%s(a))); stv(o2, glm::isinf(%s(a))); stv(o3, glm::lessThan(%s(a), %s(b))); stv(o4, glm::equal(%s(a), %s(b)));' % (AF, AF, AF, AF, AF, AF))      # bool results must be 0/1 bytes (UBSan bool)
     addS('a_fconv', [('float', 4)], [('int32_t', 4)], 'stv(o, glm::vec<4,int,glm::aligned_highp>(%s(a)));' % AF, lambda i: [z3.And(z3.Not(is_nan(x)), z3.fpLT(z3.fpAbs(fpof(x)), FPV(2.0 ** 31, 32))) for x in i[0]], '|x| < 2^31, non-NaN')
     for nm, ct in (('i', 'int32_t'), ('u', 'uint32_t'), ('f', 'float'), ('d', 'double')):
         for L in (3, 4):        # packed <-> aligned conversion constructors: unaligned source objects must be read with unaligned loads
